@@ -107,6 +107,7 @@ let () =
   let vanished : (string, unit) Hashtbl.t = Hashtbl.create 8 in             (* publishers whose Publisher was dropped *)
   let dropped_subs : (string, unit) Hashtbl.t = Hashtbl.create 8 in         (* subscribers whose Subscriber was dropped *)
   let touched : (string * string, unit) Hashtbl.t = Hashtbl.create 16 in    (* (s, p): s ran update_connections while p was registered *)
+  let ever_attached : (int * int, unit) Hashtbl.t = Hashtbl.create 16 in   (* connection instances whose receiver side was attached at some time *)
   let touch sub = Hashtbl.iter (fun p () -> Hashtbl.replace touched (sub, p) ()) live_pubs in
   let vanished_held sub =   (* vanished publishers of which sub holds a sample *)
     let seen = Hashtbl.create 4 in
@@ -147,7 +148,7 @@ let () =
         flush_case (); incr case_no; op_no := 0; dead := false; Hashtbl.reset impl_expect;
         Hashtbl.reset held; Hashtbl.reset pub_l; Hashtbl.reset loans; case_m := max 1 (int_of_string m);
         case_cap := max (int_of_string e) (max 1 (int_of_string m));
-        Hashtbl.reset live_pubs; Hashtbl.reset vanished; Hashtbl.reset dropped_subs; Hashtbl.reset touched;
+        Hashtbl.reset live_pubs; Hashtbl.reset vanished; Hashtbl.reset dropped_subs; Hashtbl.reset touched; Hashtbl.reset ever_attached;
         Hashtbl.reset pub_seq; Hashtbl.reset loan_pl; Hashtbl.reset pending; pending_skip := None; cur_sub := "";
         track_delivery := (s = "1" && ovf = "0" && h = "0");
         Buffer.add_string cur_case (String.concat " " [s; p; b; m; h; ovf; e] ^ "|");
@@ -316,6 +317,11 @@ let () =
                     known finding 2 only when the publisher was dropped, the subscriber was connected to it and more than
                     max(expired buffer, max_borrowed) publishers it was connected to were dropped *)
                  ignore (lost_delivery w0 w1);
+                 (* The loss event is the moment the samples become unreceivable for a subscriber that stays registered:
+                    (A) the receiver side of a connection with data is discarded (the connection object may live on while
+                        the dropped Publisher's state is kept alive by an outstanding SampleMut), or the attached connection vanishes;
+                    (B) a connection instance whose receiver side was NEVER attached vanishes with data.
+                    A connection whose receiver side was attached once and discarded was reported under (A) then. *)
                  List.iter (fun ((p, sb), c) ->
                    (* samples of this very connection that the back-pressure handler script received INSIDE this
                       operation were delivered, not lost: the connection may then be released empty *)
@@ -324,21 +330,31 @@ let () =
                       | BWith (_, tr) ->
                         List.length (List.filter (function HvRecv (s, _, origin, _) -> s = sb && origin = p | _ -> false) tr)
                       | _ -> 0) in
-                   if sub_live w0 sb && sub_live w1 sb && c_has_data c && getc w1 p sb = None
-                      && taken_by_handler < List.length c.c_sub then begin
-                     let ps = string_of_int (int_of_nat p) and ss = string_of_int (int_of_nat sb) in
+                   let pi = int_of_nat p and si = int_of_nat sb in
+                   let after = getc w1 p sb in
+                   let remaining = (match after with Some c1 -> List.length c1.c_sub | None -> List.length c.c_sub - taken_by_handler) in
+                   let ev_a = c.c_rcv && (match after with None -> true | Some c1 -> not c1.c_rcv) in
+                   let ev_b = (not c.c_rcv) && after = None && not (Hashtbl.mem ever_attached (pi, si)) in
+                   if sub_live w0 sb && sub_live w1 sb && c_has_data c && remaining > 0 && (ev_a || ev_b) then begin
+                     let ps = string_of_int pi and ss = string_of_int si in
                      let gone = Hashtbl.mem vanished ps and conn = Hashtbl.mem touched (ss, ps) in
+                     let state_gone = not (getp w1 p).p_alive in
                      incr mm_spec;
-                     if not c.c_rcv && gone && not conn then begin
+                     if ev_b && gone && state_gone then begin
+                       (* finding 1: the instance only ever had its sender attached; the dropped publisher's last handle went *)
                        bump extra "lost_never_connected";
                        report "speclost1" (Printf.sprintf "MISMATCH case=%d op=%d kind=spec prop=C01 key=pubsub:delivered-sample-lost-subscriber-not-yet-connected line=[%s] spec=delivered-samples-stay-receivable impl=connection-destroyed-with-data\n" !case_no !op_no line) end
-                     else if c.c_rcv && gone && conn && vanished_touched ss > !case_cap then begin
+                     else if ev_a && gone && conn && vanished_touched ss > !case_cap then begin
+                       (* finding 2: the subscriber discards an expired connection with data because its expired-connection buffer is full *)
                        bump extra "lost_expired_buffer_overflow";
                        report "speclost2" (Printf.sprintf "MISMATCH case=%d op=%d kind=spec prop=C01 key=pubsub:expired-connection-buffer-discards-data line=[%s] spec=delivered-samples-stay-receivable impl=connection-removed-with-data\n" !case_no !op_no line) end
                      else begin
                        bump extra "guard_rejected_lost_delivery";
-                       report "speclost0" (Printf.sprintf "MISMATCH case=%d op=%d kind=spec prop=C01 key=pubsub:delivered-sample-lost line=[%s] spec=delivered-samples-stay-receivable impl=connection-p%s-s%s-gone-with-data(receiver-attached=%b,publisher-dropped=%b,subscriber-updated-meanwhile=%b,dropped-publishers-it-was-connected-to=%d,cap=%d)\n" !case_no !op_no line ps ss c.c_rcv gone conn (vanished_touched ss) !case_cap) end
+                       report "speclost0" (Printf.sprintf "MISMATCH case=%d op=%d kind=spec prop=C01 key=pubsub:delivered-sample-lost line=[%s] spec=delivered-samples-stay-receivable impl=connection-p%s-s%s-%s-with-data(receiver-attached=%b,ever-attached=%b,publisher-dropped=%b,publisher-state-gone=%b,subscriber-updated-meanwhile=%b,dropped-publishers-it-was-connected-to=%d,cap=%d)\n" !case_no !op_no line ps ss (if after = None then "gone" else "receiver-discarded") c.c_rcv (Hashtbl.mem ever_attached (pi, si)) gone state_gone conn (vanished_touched ss) !case_cap) end
                    end) w0.w_conns;
+                 (* lifetime of the connection instances: was the receiver side ever attached *)
+                 List.iter (fun ((p, sb), c) -> if c.c_rcv then Hashtbl.replace ever_attached (int_of_nat p, int_of_nat sb) ()) w1.w_conns;
+                 Hashtbl.iter (fun (pi, si) () -> if getc w1 (nat_of_int pi) (nat_of_int si) = None then Hashtbl.remove ever_attached (pi, si)) (Hashtbl.copy ever_attached);
                  (match mo with BSent _ | BRecv (Some _) | BLoaned _ -> cur_nontrivial := true | _ -> ());
                  (* the conservation invariant of C02 (and the bounds C08 counts with), evaluated on the model state *)
                  if not (inv_topology_b w1) && not !inv_bad then begin
